@@ -1107,7 +1107,7 @@ WALK_STRMARK_CLOSURE = rep(rep(rep(rep(WALK_OLD, '\tvar foundPluginExecutableFil
                            '\tif !foundPluginExecutableFile {\n', '\tif pluginExecutableFile == "" {\n')
 
 # ---- fifth pass: the walk skeleton in a helper that takes the per-entry action as a function value
-DIRCOPY_OLD = """func CopyDirToDir(src, dst string) error {
+DIRCOPY_FUNC_OLD = """func CopyDirToDir(src, dst string) error {
 	fi, err := os.Stat(src)
 	if err != nil {
 		return err
@@ -1298,7 +1298,7 @@ def via(find=None, replace=None, m=None, f=None, extra=()):
             newF = rep(newF, find, replace)
         else:
             newM = rep(newM, find, replace)
-    return [(F, DIRCOPY_OLD, newF), (M, SANITY_M, ''), (M, WALK_OLD, newM)] + list(extra)
+    return [(F, DIRCOPY_FUNC_OLD, newF), (M, SANITY_M, ''), (M, WALK_OLD, newM)] + list(extra)
 
 def via_local(find=None, replace=None):
     newM = WALK_VIA_LOCAL
